@@ -47,3 +47,47 @@ contract(f"{TDB}.parse_filter_statement", bound="attribute paths of 1-2 componen
                                                    "query": T.opaque("tq"), "filter": T.oneof(*FILTERS)},
          ensures={"query_denotes_the_filter_on_the_stored_message": "model('query_formula', result) == tinydb_filter_matches(filter)"},
          canary={"always_true": "model('query_formula', result)"}, **TS)
+
+# ------------------------------------------------------------------------------------------- type selection, TinyDB search
+RQ = f"{CLS}:RequestDataObjectsReq"
+
+
+def doc(kind):
+    return T.dict(_open=True, applicationId=T.int(0, 100), dataObject=T.dictk({kind: T.dict(_open=True, generationDeltaTime=T.int(0, 65535))}))
+
+
+DOCS = [T.tuple()] + [T.tuple(doc(k)) for k in ("cam", "denm", "vam")] + [T.tuple(doc(a), doc(b)) for a in ("cam", "denm", "vam") for b in ("cam", "vam")]
+TYPES = T.oneof(T.tuple(), T.tuple(T.const(2)), T.tuple(T.const(1)), T.tuple(T.const(2), T.const(16)))
+contract(f"{RQ}.filter_out_by_data_object_type", shapes={"search_result": T.oneof(*DOCS), "data_object_types": TYPES},
+         bound="0..2 records, each a CAM, DENM or VAM; requested type tuples (), (CAM), (DENM), (CAM, VAM)", returns=T.opaque("object"),
+         ensures={"exactly_the_records_of_a_requested_type_in_order": "list(result) == [r for r in search_result if message_type_id(r) in data_object_types]"},
+         **{k: v for k, v in S.items()})
+
+
+def setup_tinydb_search(e):
+    models_tinydb.setup(e)
+    from pyvc.shapes import Maker, expand_oneof
+    from pyvc.values import TupleV, Obj
+
+    def h_db(e2, st, o, name, args, kwargs):
+        e2.used_assumptions.add("tinydb table: all() / search(q) return some list of 0..2 stored documents (bounded); the query object is recorded")
+        if name in ("all", "search"):
+            for shape in DOCS:
+                s1, v = Maker(e2).make(st, shape, e2.fresh("found"))
+                s1 = s1.ghost_append("db_calls", TupleV([StrV(name)] + list(args) + [v]))
+                yield s1.alloc(Obj(None, "list", None, list(v.items)))
+        else:
+            raise NotImplementedError(name)
+    e.opaque_handlers["tinydb_table"] = h_db
+
+
+from pyvc.values import StrV
+SEARCH_REQ = T.rec(RQ, application_id=T.int(0, 100), data_object_type=TYPES, priority=T.none, order=T.none,
+                   filter=T.oneof(T.none, flt("cam.generationDeltaTime", ["GREATER_THAN"]), flt("cam.generationDeltaTime", ["GREATER_THAN"], ("header.stationId", ["GREATER_THAN_OR_EQUAL"], ["OR"]))))
+contract(f"{TDB}.search", shapes={"self": T.obj(TDB, database=T.opaque("tinydb_table"), _lock=T.opaque("rlock")), "data_request": SEARCH_REQ},
+         bound="tables answering with 0..2 documents; three representative filters (none, one statement, two statements joined by or)",
+         inline=[f"{RQ}.filter_out_by_data_object_type", f"{TDB}.parse_filter_statement"], returns=T.opaque("object"),
+         ensures={"one_table_access_with_the_query_built_from_the_filter": "len(ghost('db_calls')) == 1 and (ghost('db_calls')[0][0] == 'all') == (data_request.filter is None)",
+                  "the_query_denotes_the_filter": "implies(data_request.filter is not None, model('query_formula', ghost('db_calls')[0][1]) == tinydb_filter_matches(data_request.filter))",
+                  "exactly_the_found_documents_of_a_requested_type_in_order": "[r['dataObject'] for r in result] == [r['dataObject'] for r in ghost('db_calls')[0][len(ghost('db_calls')[0]) - 1] if message_type_id(r) in data_request.data_object_type]"},
+         **dict(S, engine_setup=setup_tinydb_search))
